@@ -124,6 +124,19 @@ def canonical (raw):
   ipd = d.get("ip")
   if ipd is not None:
     if "udp" in d and d["udp"]["csum"] == 0: return False
+    if "udp" in d and 4789 in (d["udp"]["sport"], d["udp"]["dport"]):
+      # what the library takes for a VXLAN header: it keeps the I flag and
+      # the network identifier and nothing else of those eight octets, so
+      # only headers with everything else zero come out as they went in
+      h = raw[ipd["l4_off"] + 8:ipd["l4_off"] + 16]
+      if len(h) == 8 and (h[0] & ~0x08 or h[1:4] != b"\0\0\0" or h[7]
+                          or (not h[0] & 0x08 and h[4:7] != b"\0\0\0")):
+        return False
+      if len(h) == 8:
+        # ... and behind it is an Ethernet frame of its own, with the same
+        # question asked again
+        inner = raw[ipd["l4_off"] + 16:ipd["end"]]
+        if len(inner) >= 14 and not canonical(inner): return False
     if "icmp" in d and d["icmp"]["type"] in (3, 11):
       # ... unless the quote is a complete, valid datagram: that one the
       # library has no reason to alter
@@ -380,10 +393,13 @@ def run_case (case, rep):
     """A packet-in as (reason, port, frame): with a buffer granted only the
     first max_len bytes travel, the total length tells the rest."""
     d = m["data"]
-    for (r, p, f, ml) in want:
+    for i_, (r, p, f, ml) in enumerate(want):
       for g in (f, strip_trailer(f)):
         if m["buffer_id"] != 0xffffffff and len(g) > ml and d == g[:ml] \
            and m["total_len"] == len(g) and (r, p) == (m["reason"], m["in_port"]):
+          # (each expected packet-in accounts for one observed one: two that
+          #  are cut to the same few octets are told apart by their order)
+          del want[i_]
           return (r, p, g)
     return (m["reason"], m["in_port"], d)
   want_pins = []
@@ -392,6 +408,7 @@ def run_case (case, rep):
                                   "packet_out" if via in BUFFERED else via,
                                   table_flow, True)[1]
     except Exception: want_pins = []
+  want_pins = list(want_pins)
   pins_obs = [seen(m, want_pins) for m in msgs if m["name"] == "packet_in"]
   other = [m for m in msgs if m["name"] != "packet_in"]
   if other:
